@@ -162,7 +162,7 @@ pub fn run(ctx: &mut Ctx) {
     ctx.rule = "(i) 32-byte scalars in [1,n-1] from {1,2,3,n-1..n-3,(n-1)/2,(n+1)/2,2^k-1,2^k,2^k+1,leading-zero,uniform}; (ii) out-of-range 32-byte values {0,n,n+1,n+2,2^256-1,uniform in [n,2^256)}; (iii) every length 0..=64 with zero-padded / random / all-zero / all-0xff content. Oracle: independent secp256k1 scalar multiplication, sha3 Keccak, own EIP-55. Non-trivial: not the Ganache test key; distinct by scalar.".into();
     ctx.assumptions = vec!["reference secp256k1 agrees with k256 on the selftest sample (two independent implementations)".into()];
     ctx.replay_known_and_regressions(&replay);
-    let n = ctx.tier.pick(5000, 200_000);
+    let n = ctx.tier.pick(50_000, 500_000);
     ctx.run_prop(
         "valid",
         n,
